@@ -60,10 +60,16 @@ func (v *VUrl) getValidFn(validName string) (CommonValidFn, error) {
 // validate 验证执行体
 func (v *VUrl) validate(value string) *VUrl {
 	// 解码处理
-	decUrl, err := url.QueryUnescape(value)
-	if err != nil {
-		v.errBuf.WriteString(GetJoinFieldErr("", "", "url unescape is failed, err: "+err.Error()))
-		return v
+	// 1. 标准 url(包含未编码的 "?"): 先按 "&", "=" 分割再分别解码, 避免值里被编码的 "&", "=" 被当成分隔符
+	// 2. 整个 url 都被编码(如: http%3A%2F%2Ftest.com%3Fname%3Dtest): 先整体解码再分割
+	decUrl := value
+	isDecParam := strings.Contains(value, "?")
+	if !isDecParam {
+		var err error
+		if decUrl, err = url.QueryUnescape(value); err != nil {
+			v.errBuf.WriteString(GetJoinFieldErr("", "", "url unescape is failed, err: "+err.Error()))
+			return v
+		}
 	}
 	urlQuery := ""
 	queryIndex := strings.Index(decUrl, "?")
@@ -85,6 +91,16 @@ func (v *VUrl) validate(value string) *VUrl {
 		}
 		if l > 1 {
 			val = key2val[1]
+		}
+		if isDecParam {
+			var err error
+			if key, err = url.QueryUnescape(key); err == nil {
+				val, err = url.QueryUnescape(val)
+			}
+			if err != nil {
+				v.errBuf.WriteString(GetJoinFieldErr("", "", "url unescape is failed, err: "+err.Error()))
+				continue
+			}
 		}
 
 		validNames := v.ruleObj.Get(key)
